@@ -272,6 +272,19 @@ ALIAS_PROGRAMS = [
     ("mutual", "type A = dict[str, B | int]\ntype B = list[A]\n", "A"),
     ("list-or-int", "type A = list[A] | int\n", "A.__value__"),
     ("dict-alias", "type A = dict[str, A | int]\n", "A.__value__"),
+    # the alias met BELOW the root: as a container member and as a class field (its written form differs from its unwrapped form)
+    ("list-or-int", "type A = list[A] | int\n", "dict[str, A]"),
+    ("list-or-int", "type A = list[A] | int\n", "list[A]"),
+    ("dict-alias", "type A = dict[str, A | int]\n", "dict[str, A]"),
+    ("dict-alias", "type A = dict[str, A | int]\n", "list[A]"),
+    ("mutual", "type A = dict[str, B | int]\ntype B = list[A]\n", "dict[str, A]"),
+    ("dict-alias", "import dataclasses\ntype A = dict[str, A | int]\n@dataclasses.dataclass\nclass H:\n    body: A = None\n    n: int = 0\n", "H"),
+    ("list-or-int", "import dataclasses\ntype A = list[A] | int\n@dataclasses.dataclass\nclass H:\n    body: A = None\n    n: int = 0\n", "H"),
+    ("dict-alias", 'import dataclasses, typing\nA = typing.TypeAliasType("A", "dict[str, A | int]")\n@dataclasses.dataclass\nclass H:\n    body: A = None\n    n: int = 0\n', "H"),
+    # a cycle made only of aliases whose way back is a bare `|` union of builtin-backed members
+    ("mutual-opt", "type A = B | None\ntype B = dict[str, A]\n", "A"),
+    ("mutual-opt", "type A = B | None\ntype B = dict[str, A]\n", "B"),
+    ("mutual-opt", "type A = B | None\ntype B = dict[str, A]\n", "list[A]"),
 ]
 
 
@@ -291,6 +304,11 @@ def alias_value(name, d):
         w, e = "7", 7
         for _ in range(d):
             w, e = [w, "7"], [e, 7]
+        return w, e
+    if name == "mutual-opt":
+        w = e = {"z": None}
+        for _ in range(d):
+            w = e = {"k": w, "z": None}
         return w, e
     if name == "mutual":
         w, e = {"n": "7"}, {"n": 7}
